@@ -135,6 +135,13 @@ def branches_exist(doc, segs):
         return False
 
 
+def unordered(segs):
+    """C13 states *which* members an inverted max/min/unique returns, not
+    their order (the engine returns them grouped)."""
+    return any(s[0] == "kw" and s[3] and s[1] in ("max", "min", "unique")
+               for s in segs)
+
+
 def diff_kind(exp, got):
     ce, cg = collections.Counter(map(repr, exp)), collections.Counter(
         map(repr, got))
@@ -172,7 +179,9 @@ def check_case(st, doc, text, shp, segs, dot, slash, before):
                 ok = False
                 st.fail("%s|missing-all" % sig, case,
                         "%d nodes" % len(exp[1]), out.brief())
-            elif got != exp[1]:
+            elif got != exp[1] and not (
+                    unordered(segs) and sorted(map(repr, got)) == sorted(
+                        map(repr, exp[1]))):
                 ok = False
                 st.fail("%s|%s" % (sig, diff_kind(exp[1], got)), case,
                         describe(exp[2]), describe_nc(out.ncs))
